@@ -483,6 +483,11 @@ pub fn run(rep: &Report) {
     random_fn_plane(rep, if thorough { 20_000_000 } else { 400_000 });
     ins_plane(rep, if thorough { 4000 } else { 60 }, false, rep.seed ^ 0xABCD);
     source_plane(rep, if thorough { 400 } else { 10 }, false, rep.seed ^ 0x1234);
+    crate::insplane::history_plane(rep, if thorough { 40_000 } else { 600 }, 120, rep.seed ^ 0x41, false, "C01 lock-step history", "ins", &|rng| {
+        let opk = rng.below(5);
+        let form = rng.below(ALU2_FORMS);
+        arith_ins(rng, form, opk)
+    });
     crate::insplane::edge_plane(rep, if thorough { 400_000 } else { 6000 }, rep.seed ^ 0xE1, false, "C01 at the end of memory", "ins", &|rng| {
         let opk = rng.below(8);
         let form = rng.below(if opk < 5 { ALU2_FORMS } else { UN_FORMS });
